@@ -39,6 +39,12 @@ CLAIMED = {
  'C14': ('explicit-state breadth-first search over pull-session event histories on the real mock server, to the fixpoint of the reachable state graph, lock-step with a list/cursor reference model',
          'For every Open operation (7), result size N (0..4, 0..6 thorough), MaxObjectCount value and every pair (and representative triples) of interleaved sessions, all sequences of Pull (3 kinds x 5 MaxObjectCount classes), CloseEnumeration, stale/foreign/made-up contexts and namespace removal are explored breadth-first with deduplication on a canonical state until no new state appears (the depth bound never binds). On every transition: at most MaxObjectCount objects, delivered multiset = traditional result, eos only when nothing remains, progress or eos, wrong-kind pulls refused without consuming, contexts refused after eos/close, no context left in the server table in quiescent states.',
          'uuid4 replaced by a counter; OpenQueryInstances is reached through a 6-line ExecQuery stub because the mock ExecQuery always raises; states are deduplicated on (delivered set, cursor, server table)', '§5 C14'),
+ 'C08': ('bounded exhaustive input enumeration on the real code (object lattices, all strings over the MOF atoms, fold sweeps placing every escape at every column) through tomof() and the real MOF compiler',
+         'Qualifier declarations, classes and instances from object lattices (every type, arrays, NULLs, char16, references, embedded instances, flavor/scope sets), every string of length <= 3 (4) over 14 MOF atoms in 12 contexts, fold sweeps (every special atom at every column up to 3*maxline for maxline in {40,41,79,80,200}; every maxline 40..120 in thorough) and harness-written multi-part literals are printed with tomof() and recompiled by one long-lived MOFCompiler per worker; the compiled object must equal the original under the projection the statement names, and harness-written DSP0004 literals must denote exactly their characters.',
+         'trusts mc/refmodels/mofescape.py (DSP0004 escaping both ways) and the projection (class_origin, propagated, child order, paths are not compared); values MOF cannot express (ToInstance flavor, INF/NaN, keyword names, embedded classes) are excluded', '§5 C08'),
+ 'C13': ('bounded exhaustive enumeration of association graphs, sources and filter tuples on the real mock server against a brute-force reference read from the raw instance store',
+         'All graphs with at most 2 (3) association instances out of 44 (57) candidates over binary, subclassed, same-class and ternary associations incl. self-associations, NULL ends and cross-namespace ends; every instance and class as source; filter tuples (AssocClass, ResultClass, Role, ResultRole) from existing/case-variant/sub/superclass/non-existing names with a total budget on filters set; AssociatorNames/Associators/ReferenceNames/References and reduced Open/Iter variants. Oracles: Names == paths of the full operation, brute-force reference model, adding a filter never adds results, symmetry with mirrored roles.',
+         'trusts mc/refmodels/assoc.py; class-level semantics are only checked for names-vs-full and monotonicity (the statement is silent beyond that)', '§5 C13'),
 }
 NOT_YET = 'check not built yet in this round (planned, see DESIGN.md §5); not claimed until it exists'
 
